@@ -36,3 +36,5 @@ class ModifiedZorgNotesEvent(Event):
     zettel_dir: Path
     zorg_page_path: Path
     modified_notes: list[Note]
+    # False when the same page is going to be rewritten once more (new ZIDs).
+    is_last_rewrite: bool = True
